@@ -161,6 +161,29 @@ CHECKS = {
             "window-mean values, min/max bounds and commutation with circular shifts are numeric and not decided.",
             "custom ast structural rules (pairing triples, def-use of the pad width, validation dominance) + order provenance",
             "DESIGN.md section 4 C16"),
+    "C01": (True, "other",
+            "Units-of-measure and dimension typing of every integrated statistic: an abstract interpreter over the SpecArray "
+            "methods (units m/s/deg, remaining spectral dims, interprocedural with call-site constants, 2-D and 1-D modes) infers "
+            "each return type from the types of efth, freq, dir, df and dd and compares it with the CF units in attributes.yml; a "
+            "missing or doubled bin width, a wrong power of frequency, a degree/radian slip, a reduction over the wrong dimension "
+            "or an inconsistent sum changes the inferred type for every input. Plus the single 1-D/2-D integration path, "
+            "sibling-constant agreement with the numpy twins, the exact deep-water closed forms and full coverage of the "
+            "wavenumber polynomial, circular / uncached bin widths (shared).",
+            "numerical equality with the integrals, df-vs-freq mix-ups (same unit), float32/float64 agreement, the 0.1 % accuracy "
+            "of the Chen-Thomson coefficients and hmax's wave count are NOT decided; gw has no unit obligation (see DESIGN).",
+            "units-of-measure / dimension type inference (abstract interpretation over ast) against attributes.yml + sibling cross-check",
+            "DESIGN.md section 4 C01"),
+    "C10": (True, "other",
+            "Homogeneity-degree typing decides the scaling clause exactly: the interpreter tracks each value's degree of "
+            "homogeneity in the spectrum (product adds, quotient subtracts, power multiplies, sqrt halves, arctan2/comparison of "
+            "equal degrees gives 0, a constant added to or compared with a degree != 0 quantity breaks it) and proves heights "
+            "degree 1/2, drift/slope/moments 1, periods/directions/spreads/shape parameters 0 (one known finding: sw). Plus: "
+            "direction results reduced mod 360 last, scale_by_hs structure (factor, closed ranges, either-bound activation), and "
+            "for the rotation clause circular widths, coordinate-valued unconditional peak direction and no cached weights.",
+            "the inequalities (Tm02 <= Tm01, dspr <= 81.03, swe <= 1) are Cauchy-Schwarz-type numeric facts and rotation "
+            "equivariance as such is not executed; eval(expr) is opaque.",
+            "homogeneity-degree type inference (abstract interpretation over ast) + structural rules",
+            "DESIGN.md section 4 C10"),
 }
 
 NA_DEFAULT = "check under construction in this build round (see DESIGN.md section 8)"
